@@ -278,6 +278,19 @@ def _check(case, v):
                                        f"expected {exp!r} {u}")
         if r.units() != u:
             return v.fail("sum-units", f"result units {r.units()!r} != {u!r}")
+        if kind == "sum" and not isinstance(a, list):
+            # operands that are one object, or derived from one another (results inherit their operand's internals)
+            qa, qb = Quantity(a, u), Quantity(b, u)
+            twice = qa + qa
+            da = level_to_db(a, u)
+            want = db_to_level(da + 10 * math.log10(2.0), u)
+            if not close(float(twice.value()), want, 1e-8, 1e-8):
+                return v.fail("sum-value", f"q = Quantity({a!r},{u!r}); q + q = {twice.value()!r} {twice.units()}, expected {want!r}")
+            if op == "+":
+                back = (qa + qb) - qa
+                if not close(float(back.value()), b, 1e-6, 1e-6) and abs(da - level_to_db(b, u)) < 60:
+                    return v.fail("sum-value", f"(a + b) - a = {back.value()!r} {back.units()} for a = {a!r}, b = {b!r} {u}")
+            v.label("sum_same_object_and_derived")
         v.nt(True)
         if isinstance(a, list):
             v.label("sum_array")
